@@ -437,6 +437,24 @@ def locate(fn, loc):
         return assign_value(fn, loc[1], loc[2])
     if kind == "arg":
         return call_arg(fn, loc[1], loc[2], loc[3])
+    if kind == "augassign":
+        # ("augassign", target, nth): `target op= value` as the expression `target op value`
+        hits = [n for n in ast.walk(fn) if isinstance(n, ast.AugAssign) and ast.unparse(n.target) == loc[1]]
+        if len(hits) <= loc[2]:
+            raise Fail("%s: no augmented assignment to %s" % (fn.name, loc[1]), fn)
+        n = hits[loc[2]]
+        return ast.copy_location(ast.BinOp(left=n.target, op=n.op, right=n.value), n)
+    if kind == "has_call":
+        # ("has_call", callee_suffix, min_count): does the function call `...callee_suffix(...)` at least min_count times?
+        hits = [n for n in ast.walk(fn) if isinstance(n, ast.Call) and ast.unparse(n.func).endswith(loc[1])]
+        return ast.copy_location(ast.Constant(len(hits) >= loc[2]), fn)
+    if kind == "range_arg":
+        # ("range_arg", nth): the single argument of the nth `for ... in range(<expr>)`
+        hits = [n for n in ast.walk(fn) if isinstance(n, ast.For) and isinstance(n.iter, ast.Call)
+                and ast.unparse(n.iter.func) == "range" and len(n.iter.args) == 1]
+        if len(hits) <= loc[1]:
+            raise Fail("%s: no `for ... in range(x)` loop" % fn.name, fn)
+        return hits[loc[1]].iter.args[0]
     raise Fail("bad locator %r" % (loc,))
 
 
@@ -654,7 +672,13 @@ def gen(repo, outdir, selftest_out=None):
         fenv = per_file.get(rel, (cenv, {}))[0] if rel in per_file else module_consts(t, cenv)[0]
         try:
             fn = find_def(t, qual)
-            e = locate(fn, loc)
+            try:
+                e = locate(fn, loc)
+            except Fail:
+                if "absent" not in opts:
+                    raise
+                # the located test does not exist in this tree: the code behaves as `absent` says
+                e = ast.copy_location(ast.Constant(opts["absent"]), fn)
             tr = Tr(fenv, {p[0]: (p[1], p[2]) for p in params}, nat=opts.get("nat", False), file=rel)
             if rty == "bool":
                 body = tr.boolean(e)
